@@ -28,6 +28,7 @@ func runC11(c *Ctx, r *Report) {
 	c11Defaults(c, r, "C11.R8")
 	c11CountFailure(c, r, "C11.R10")
 	c11ActiveAddress(c, r, "C11.R11")
+	c11Provision(c, r, "C11.R12")
 	// an upstream at its connection limit is not given another connection: every policy returns only upstreams
 	// for which available() (health AND limits) holds - the policy tables of C10 with full pool states
 	tmp := newReport("tmp")
@@ -325,8 +326,8 @@ func c11R5(c *Ctx, r *Report, rule string) {
 		}
 		var problems []string
 		cases := 0
-		for _, policy := range []int64{-1, 0, 2} { // -1: no passive policy
-			for _, maxConns := range []int64{0, 2} {
+		for _, policy := range []int64{-1, 0, 1, 2} { // -1: no passive policy
+			for _, maxConns := range []int64{0, 1, 2} {
 				for _, s0 := range states {
 					for _, s1 := range states {
 						ps := []peerSt{s0, s1}
